@@ -35,6 +35,15 @@ fn main() {
                     let en: String = exp.concat().chars().filter(|c| !c.is_whitespace()).collect(); let on: String = out.concat().chars().filter(|c| !c.is_whitespace()).collect();
                     if en != on { let e = bad.entry(format!("{ctx} overflow: nonspace differs")).or_insert((0, format!("{h:?} @{w}: got={out:?}"))); e.0 += 1; }
                     for l in &lines { let wd: usize = l.tagged_strings().map(|t| sw(&t.s)).sum(); if wd > w { let e = bad.entry(format!("{ctx} overflow: overwide")).or_insert((0, format!("{h:?} @{w}: got={out:?}"))); e.0 += 1; break; } }
+                    // tags: walk output lines, matching against source lines' nonspace chars; first piece of each source line must be Preformat(false), later pieces Preformat(true)
+                    let mut li = 0usize; let mut consumed = 0usize; let srcns: Vec<String> = exp.iter().map(|l| l.chars().filter(|c| !c.is_whitespace()).collect()).collect(); let mut first_piece = true; let mut tag_ok = true; let mut why = String::new();
+                    for l in &lines { let mut line_ns = 0usize; let mut tags: Vec<bool> = vec![]; for ts in l.tagged_strings() { let cnt = ts.s.chars().filter(|c| !c.is_whitespace()).count(); if pfx > 0 && ts.tag.is_empty() { continue; } for t in &ts.tag { if let RichAnnotation::Preformat(b) = t { if cnt > 0 { tags.push(*b); } } } line_ns += cnt; }
+                        if line_ns == 0 { continue; }
+                        while li < srcns.len() && consumed >= srcns[li].chars().count() { li += 1; consumed = 0; first_piece = true; }
+                        if li >= srcns.len() { break; }
+                        let want = !first_piece; if tags.iter().any(|&b| b != want) { tag_ok = false; why = format!("line {:?} want cont={want} tags={tags:?}", l.tagged_strings().map(|t| t.s.clone()).collect::<String>()); break; }
+                        consumed += line_ns; first_piece = false; }
+                    if !tag_ok { let e = bad.entry(format!("{ctx} overflow: preformat tag")).or_insert((0, format!("{h:?} @{w}: {why} got={out:?}"))); e.0 += 1; }
                 }
             }
         }
